@@ -16,7 +16,16 @@ func VerifC08Packet(n, hdr int) {
 		copy(b[44:48], verifBytes("sname", 4))
 		copy(b[108:112], verifBytes("file", 4))
 	}
-	b = append(b, verifBytes("opt", n)...)
+	verifC08Check(append(b, verifBytes("opt", n)...))
+}
+
+// VerifC08Shaped: areas of up to four option instances with symbolic codes and values (see
+// verifShapedArea): repeated codes are concatenated by append, whose aliasing is modelled exactly.
+func VerifC08Shaped(l1, l2, l3, l4, pad int) {
+	verifC08Check(append(verifValidPrefix(), verifShapedArea([]int{l1, l2, l3, l4}, pad)...))
+}
+
+func verifC08Check(b []byte) {
 	p, err := FromBytes(b)
 	if err != nil {
 		verifReach("rejected")
